@@ -117,7 +117,41 @@ Theorem C10_held_distinct :
 Proof. exact held_distinct. Qed.
 Print Assumptions C10_held_distinct.
 
+(* A body whose reader ends with an error other than io.EOF (io.ErrUnexpectedEOF of a cut gzip
+   stream or of a body shorter than its Content-Length, a connection error, a timeout): whatever
+   prefix of the body arrived, for every buffer size and transport, the request is rejected and
+   nothing is stored. *)
+Theorem C10_broken_rejects :
+  forall (eager : bool) (B : nat), 2 <= B ->
+  forall (classify : list N -> cls) (prefix : list N),
+    run_body_t true eager B (fun d => Some (classify d)) prefix = Rejected.
+Proof. exact broken_rejects. Qed.
+Print Assumptions C10_broken_rejects.
+
+(* Both pooled resources that carry request data - the compressor (payload slices) and the
+   gzip.Reader (body) - are taken once and given back once when the request is over: for every
+   interleaving of the events on the two pools, neither kind of object is held by two requests
+   in flight or lies in its pool while held. *)
+Theorem C10_pools_exclusive :
+  forall evs,
+    NoDup (map snd (held (fst (prun2 evs))) ++ pool (fst (prun2 evs))) /\
+    NoDup (map snd (held (snd (prun2 evs))) ++ pool (snd (prun2 evs))).
+Proof. exact pools_exclusive. Qed.
+Print Assumptions C10_pools_exclusive.
+
 (* ---- non-vacuity / documentation of the repaired defects ---- *)
+
+Example C10_broken_nonvacuous :
+  (* {"index":{}}\n{"a":1}\n then the stream breaks: rejected; the same bytes ended by EOF: one document *)
+  let body := [123;34;105;110;100;101;120;34;58;123;125;125;10;123;34;97;34;58;49;125;10]%N in
+  run_body_t true false 32 (fun _ => Some Object) body = Rejected /\
+  run_body false 32 (fun _ => Some Object) body = Accepted [[123;34;97;34;58;49;125]%N].
+Proof. split; vm_compute; reflexivity. Qed.
+
+Example C10_gzip_early_put_refuted :
+  map snd (held (prun_early [Start 1 0; Start 2 0])) = [0; 0].
+Proof. exact gzip_early_put_refuted. Qed.
+
 
 Example C10_pool_nonvacuous :
   (* E finishes empty; A and B overlap (B takes the pooled object or a new one), then finish *)
